@@ -11,6 +11,8 @@ def answer (line : String) : String :=
     | "hsmspec" => hsmSpecLine toks
     | "q" => qLine toks
     | "ld" => ldLine toks
+    | "lds" => ldsLine toks
+    | "fab" => fabLine toks
     | _ => "bad-family"
   | [] => "bad-line"
 
